@@ -22,29 +22,37 @@ BytesOf(k) == Tables.names[k]
 BlobIdFn(c) == Tables.contents[c].blobid
 ObjOfTok(tok) == Tables.objects[tok]
 
+CONSTANT Want       \* property ids whose clauses are evaluated; set in the configuration file
+
 INSTANCE GoitAsIs
 
 VARIABLES l, cnt
 
+ReportFails(i, cs, fails, devs) ==
+    \A k \in fails :
+        PrintT(ToJson([k |-> "F", i |-> i, c |-> cs[k].n, p |-> cs[k].p, kf |-> {d \in devs : cs[k].n \in Explains(d)}]))
+
 AddCounts(c, names) == [n \in (DOMAIN c) \cup names |-> (IF n \in DOMAIN c THEN c[n] ELSE 0) + (IF n \in names THEN 1 ELSE 0)]
 
-Judge(i) ==
-    LET e == Trace[i]
-        s == Trace[e.prel]
-        t == Trace[e.postl]
-        f == IF "finl" \in DOMAIN e THEN Trace[e.finl] ELSE t
-        cs == IF e.ev = "crash" THEN CrashClauses(s, e, t, f)
-              ELSE IF e.ev = "damage" THEN DamageClauses(s, e, t)
-              ELSE IF "fault" \in DOMAIN e THEN FaultClauses(s, e, t, f)
-              ELSE AllClauses(s, e, t)
-        hitIdx == {j \in 1..Len(cs) : cs[j].a}
-        fails == {k \in hitIdx : ~cs[k].ok}
-        devs == IF fails = {} THEN {} ELSE Devs(s, e, t, f)
-    IN  /\ \A k \in fails :
-              PrintT(ToJson([k |-> "F", i |-> i, c |-> cs[k].n, p |-> cs[k].p,
-                             kf |-> {d \in devs : cs[k].n \in Explains(d)}]))
-        /\ PrintT(ToJson([k |-> "H", i |-> i, p |-> UNION {cs[j].p : j \in hitIdx}]))
-        /\ cnt' = AddCounts(cnt, {cs[j].n : j \in hitIdx})
+(* TLC re-evaluates a LET definition at every reference but evaluates an operator argument once, *)
+(* so everything that is used more than once is passed as an argument.                           *)
+Report(i, s, e, t, f, cs, hitIdx) ==
+    LET fails == {k \in hitIdx : ~cs[k].ok} IN
+    /\ (fails # {}) => ReportFails(i, cs, fails, Devs(s, e, t, f))
+    /\ (hitIdx # {}) => PrintT(ToJson([k |-> "H", i |-> i, p |-> UNION {cs[j].p : j \in hitIdx}]))
+    /\ cnt' = AddCounts(cnt, {cs[j].n : j \in hitIdx})
+
+WithClauses(i, s, e, t, f, cs) == Report(i, s, e, t, f, cs, {j \in 1..Len(cs) : cs[j].a})
+
+WithStates(i, e, s, t, f) ==
+    WithClauses(i, s, e, t, f,
+        IF e.ev = "crash" THEN CrashClauses(s, e, t, f)
+        ELSE IF e.ev = "damage" THEN DamageClauses(s, e, t)
+        ELSE IF "fault" \in DOMAIN e THEN FaultClauses(s, e, t, f)
+        ELSE AllClauses(s, e, t))
+
+JudgeEv(i, e) == WithStates(i, e, Trace[e.prel], Trace[e.postl], IF "finl" \in DOMAIN e THEN Trace[e.finl] ELSE Trace[e.postl])
+Judge(i) == JudgeEv(i, Trace[i])
 
 TraceInit == l = 1 /\ cnt = <<>>
 TraceNext ==
